@@ -41,6 +41,11 @@ def make_cases(tier, rng):
         for cl in ["exact", "bitflip", "prefix", "extended", "empty", "other"]:
             for hn in (False, True):
                 add(hash=h, hash_nil=hn, **{"class": cl}, pos=rng.randint(0, 100), file_size=rng.choice([1, 5000]), file_seed=rng.randint(1, 99999), launch="runner")
+    # a bare relative command name: the file in the host's working directory is checked; another executable of that
+    # name sits in a PATH directory
+    for h in (["sha256"] if tier == "quick" else list(HLEN)):
+        for cl in ["exact", "other"]:
+            add(hash=h, **{"class": cl}, pos=0, file_size=rng.choice([1, 5000]), file_seed=rng.randint(1, 99999), launch="relpath")
     # histories on one SecureConfig value
     for _ in range(6 if tier == "quick" else 40):
         add(hash=rng.choice(list(HLEN)), **{"class": "exact"}, pos=0, file_size=rng.choice([10, 5000]), file_seed=rng.randint(1, 99999),
